@@ -37,6 +37,8 @@ pub struct WState {
     /// the peer stops reading: once `total` has reached this many bytes every poll_write (and poll_flush /
     /// poll_shutdown) stays Pending for ever (a full pipe that nobody drains; no error, no wake-up)
     pub stall_at: Option<usize>,
+    /// the writer that found the pipe full (woken when the stall is lifted: the peer reads again)
+    pub stall_waker: Option<std::task::Waker>,
     pub shutdown: bool,
     /// the error kind of injected write / flush failures (default BrokenPipe)
     pub fail_kind: Option<std::io::ErrorKind>,
@@ -68,7 +70,14 @@ impl WHandle {
         self.0.lock().unwrap().fail_kind = Some(k);
     }
     pub fn set_stall_at(&self, off: Option<usize>) {
-        self.0.lock().unwrap().stall_at = off;
+        let w = {
+            let mut st = self.0.lock().unwrap();
+            st.stall_at = off;
+            if off.is_none() { st.stall_waker.take() } else { None }
+        };
+        if let Some(w) = w {
+            w.wake();
+        }
     }
     pub fn set_max_per_write(&self, k: Option<usize>) {
         self.0.lock().unwrap().max_per_write = k;
@@ -118,6 +127,7 @@ impl AsyncWrite for RecWriter {
         }
         if let Some(off) = st.stall_at {
             if st.total >= off {
+                st.stall_waker = Some(_cx.waker().clone());
                 return Poll::Pending;
             }
             n = n.min(off - st.total);
